@@ -97,7 +97,26 @@ def schema_line(sch) -> str:
                   f"{-1 if p['link'] is None else p['link']},{int(p['exclusive'])}" for p in sch['ptrs']) or '-'
     fs = ';'.join(f"{f['params'] or '-'},{f['ret']},{int(f['isOp'])},{f['kind']},{f['impl']}"
                   for f in sch['fns']) or '-'
-    return f'{ps}|{fs}'
+    ds = ','.join(f"{t}:{'.'.join(map(str, d))}" for t, d in sorted(sch.get('descs', {}).items()) if d) or '-'
+    return f'{ps}|{fs}|{ds}'
+
+
+def descs_of(children, ntypes):
+    """transitive strict descendants per type, ascending, from the direct-children relation"""
+    out = {}
+    for t in range(ntypes):
+        seen, todo = set(), list(children.get(t, []))
+        while todo:
+            x = todo.pop()
+            if x not in seen:
+                seen.add(x)
+                todo += children.get(x, [])
+        out[t] = sorted(seen)
+    return out
+
+
+def lineage(sch, t):
+    return [t] + list(sch.get('descs', {}).get(t, []))
 
 
 def db_line(db) -> str:
@@ -146,6 +165,8 @@ def _stub_classes():
     from edb.schema import constraints as s_constr
     _STUB['ptr_info'] = {}
     _STUB['id_ptr'] = {}
+    _STUB['descs'] = {}
+    _STUB['children'] = {}
     _STUB['excl'] = s_constr.Constraint._create_from_id(_uuid.uuid4())
 
     class StubObjType(s_objtypes.ObjectType):
@@ -162,7 +183,10 @@ def _stub_classes():
             return _STUB['id_ptr'][self]
 
         def descendants(self, schema):
-            return []
+            return _STUB['descs'].get(self, [])
+
+        def children(self, schema):
+            return _STUB['children'].get(self, [])
 
     class _PtrMixin:
         def get_nearest_non_derived_parent(self, schema):
@@ -212,13 +236,17 @@ class RealIR:
         self.stype = {}
         self.id_ptr = _STUB['id_ptr']
         outer = self
+        self._StubObjType, self._StubProp = StubObjType, StubProp
         for t in range(sch['ntypes']):
             st = StubObjType._create_from_id(_uuid.uuid4())
-            self.stype[t] = st
+            self.stype[(t,)] = st
             self.tr_obj[t] = irast.TypeRef(id=st.id, name_hint=sn.QualName('default', f'T{t}'))
             ip = StubProp._create_from_id(_uuid.uuid4())
             self.ptr_info[ip] = {'exclusive': True}
             self.id_ptr[st] = ip
+        for t in range(sch['ntypes']):
+            _STUB['descs'][self.stype[(t,)]] = [self.stype[(d,)] for d in sch.get('descs', {}).get(t, [])]
+            _STUB['children'][self.stype[(t,)]] = [self.stype[(d,)] for d in sch.get('children', {}).get(t, [])]
         self.ptrref = []
         self.ptrobj = []
         by_id, by_name = {}, {}
@@ -281,9 +309,28 @@ class RealIR:
         return self.pathid.PathId.from_typeref(
             typeref, typename=self.sn.QualName('__derived__', f'expr~{self.uid()}'))
 
+    def norm(self, comps):
+        """identity of an object type (mirror of `normTy` in the model)"""
+        descs = self.sch.get('descs', {})
+        d = list(dict.fromkeys(comps))
+        return tuple(sorted(t for t in d if not any(u != t and t in descs.get(u, []) for u in d)))
+
+    def stype_of(self, ty):
+        """stub schema type of a component tuple; a union type has no descendants"""
+        ty = self.norm(ty)
+        if ty not in self.stype:
+            st = self._StubObjType._create_from_id(_uuid.uuid4())
+            ip = self._StubProp._create_from_id(_uuid.uuid4())
+            self.ptr_info[ip] = {'exclusive': True}
+            self.id_ptr[st] = ip
+            self.stype[ty] = st
+        return self.stype[ty]
+
     def mkset(self, expr, typeref, ty, path_id=None, **kw):
+        if isinstance(ty, int):
+            ty = (ty,)
         s = self.irast.Set(path_id=path_id or self.pid(typeref), typeref=typeref, expr=expr, **kw)
-        self.env.set_types[s] = self.stype[ty] if ty is not None else None
+        self.env.set_types[s] = self.stype_of(ty) if ty is not None else None
         return s
 
     def tm(self, c):
@@ -347,7 +394,7 @@ class RealIR:
         if k == 'root':
             tr = self.tr_obj[t[1]]
             s = self.mkset(irast.TypeRoot(typeref=tr), tr, t[1])
-            self.ty_of[s] = t[1]
+            self.ty_of[s] = (t[1],)
             return s
         if k == 'path':
             src = self._build(t[1], binders, scope)
@@ -356,7 +403,7 @@ class RealIR:
             ptr = irast.Pointer(source=src, ptrref=ref, direction=self.s_pointers.PointerDirection.Outbound,
                                 is_definition=False)
             s = self.mkset(ptr, ref.out_target, p['link'], path_id=src.path_id.extend(ptrref=ref))
-            self.ty_of[s] = p['link']
+            self.ty_of[s] = None if p['link'] is None else (p['link'],)
             return s
         if k == 'tuple':
             els = [self._build(e, binders, scope) for e in t[1]]
@@ -369,8 +416,11 @@ class RealIR:
             a = self._build(t[1], binders, scope)
             b = self._build(t[2], binders, scope)
             name, tms = ('std::UNION', 'AA') if k == 'union' else ('std::??', 'OA')
-            s = self.opcall(name, tms, 'A', [a, b], a.typeref, self._ty(a))
-            self.ty_of[s] = self._ty(a)
+            ty = self._ty(a)
+            if k == 'union' and self._ty(a) is not None and self._ty(b) is not None:
+                ty = self.norm(tuple(self._ty(a)) + tuple(self._ty(b)))      # the union type
+            s = self.opcall(name, tms, 'A', [a, b], a.typeref, ty)
+            self.ty_of[s] = ty
             return s
         if k == 'distinct':
             a = self._build(t[1], binders, scope)
@@ -493,7 +543,15 @@ class Toy:
             # wrapped in a SELECT so that no implicit path factoring applies
             return ql.SelectQuery(result=ql.Path(steps=[ql.ObjectRef(name=f'x{depth - 1 - t[1]}')]))
         if k == 'root':
-            return ql.DetachedExpr(expr=ql.Path(steps=[ql.ObjectRef(name=f'T{t[1]}')]))
+            # the toy model has no inheritance (`__type__` is one exact type): a type with descendants is
+            # expanded into the UNION of the exact types of its lineage, in ascending type order (= database
+            # order, objects are stored sorted by type)
+            lin = sorted(lineage(self.sch, t[1]))
+            e = None
+            for x in lin:
+                r = ql.DetachedExpr(expr=ql.Path(steps=[ql.ObjectRef(name=f'T{x}')]))
+                e = r if e is None else ql.BinOp(op='UNION', left=e, right=r)
+            return e
         if k == 'path':
             src = self.q(t[1], depth)
             step = ql.Ptr(name=f'p{t[2]}')
@@ -568,22 +626,33 @@ class Toy:
 
 
 # --------------------------------------------------------------- generators
-def gen_schema(rng, ntypes=2, nptrs=6):
+def gen_schema(rng, ntypes=2, nptrs=6, inherit=True):
+    children = {}
+    if inherit:
+        for t in range(1, ntypes):
+            if rng.random() < 0.45:
+                for b in rng.sample(range(t), 2 if (t >= 2 and rng.random() < 0.3) else 1):
+                    children.setdefault(b, []).append(t)
+    descs = descs_of(children, ntypes)
     ptrs = []
     for _ in range(nptrs):
         link = rng.choice([None, None, None] + list(range(ntypes)))
         multi = rng.random() < 0.4
         ptrs.append(dict(src=rng.randrange(ntypes), required=rng.random() < 0.5, multi=multi, link=link,
                          exclusive=(link is None and rng.random() < 0.45) or (link is not None and rng.random() < 0.2)))
-    return {'ptrs': ptrs, 'fns': [dict(f) for f in STD_FNS], 'ntypes': ntypes}
+    return {'ptrs': ptrs, 'fns': [dict(f) for f in STD_FNS], 'ntypes': ntypes, 'children': children,
+            'descs': {t: d for t, d in descs.items() if d}}
 
 
 def gen_db(rng, sch, nobj=None):
     """a database conforming to the schema (required / single / link targets a
     set of the right type / exclusive values globally distinct per pointer)"""
     nobj = nobj if nobj is not None else rng.randint(0, 6)
-    objs = [(i + 1, rng.randrange(sch['ntypes'])) for i in range(nobj)]
-    by_ty = {t: [i for i, ty in objs if ty == t] for t in range(sch['ntypes'])}
+    # objects sorted by exact type (so that the extent of a type is in the same order as the toy model's
+    # per-type expansion); `by_ty[t]`: the objects that belong to t (exact type in the lineage of t)
+    tys = sorted(rng.randrange(sch['ntypes']) for _ in range(nobj))
+    objs = [(i + 1, ty) for i, ty in enumerate(tys)]
+    by_ty = {t: [i for i, ty in objs if ty in lineage(sch, t)] for t in range(sch['ntypes'])}
     ptrs = {}
     for p, pd in enumerate(sch['ptrs']):
         used = set()
